@@ -712,6 +712,7 @@ func main() {
 	var tot shardResult
 	var per []string
 	var pmodeExecs int64
+	r.JobName = func(j int) string { return fmt.Sprintf("scenario %v", scs[j]) }
 	r.Sharded(len(scs), func(job int) any {
 		res := explore(r, root, scs[job])
 		return res
